@@ -124,5 +124,5 @@ func VerifHidden(b policyapi.Backend) string {
 	if p.defaultBalloonDef != nil {
 		dd = p.defaultBalloonDef.Name
 	}
-	return fmt.Sprintf("options=%s ifree=%s loads=%v reservedDef=%s defaultDef=%s", utils.DumpJSON(p.bpoptions), p.ifreeCpus, lv, rd, dd)
+	return fmt.Sprintf("options=%s ifree=%s loads=%v reservedDef=%s defaultDef=%s allowed=%s reserved=%s", utils.DumpJSON(p.bpoptions), p.ifreeCpus, lv, rd, dd, p.allowed, p.reserved)
 }
